@@ -467,20 +467,37 @@ pub fn c13(ctx: &mut Ctx) {
         ctx.cell("size-ladder");
         ctx.mark_nontrivial_key(&format!("c13:size:{}", n));
     }
-    // nesting of higher-order operators beyond 3
-    for d in sizes(ctx, 40) {
-        let mut rule = json!({"+": [var(""), 1]});
+    // nesting of higher-order operators beyond 3 (beyond 63 only a Rust API caller can build it)
+    let mut depths = sizes(ctx, 40);
+    if ctx.mine(3) {
+        depths.extend([100usize, 127, 128, 129, 130, 200, 300]);
+    }
+    for d in depths {
+        // data nested d arrays deep; every level of the rule consumes one level of the data
         let mut data = json!(1);
-        for k in 0..d {
-            rule = match k % 3 {
-                0 => json!({"map": [var(""), rule]}),
-                1 => json!({"filter": [var(""), {"!!": [rule]}]}),
-                _ => json!({"reduce": [var(""), {"merge": [var("accumulator"), [var("current")]]}, []]}),
-            };
-            data = json!([data, 0]);
+        for _ in 0..d {
+            data = json!([data]);
         }
-        ctx.check("c13.model", &rule, &data);
+        let mut map_chain = json!({"+": [var(""), 1]});
+        let mut all_chain = json!({"!!": [var("")]});
+        let mut mixed = json!({"cat": [var(""), "!"]});
+        let mut red_chain = var("");
+        for k in 0..d {
+            map_chain = json!({"map": [var(""), map_chain]});
+            all_chain = json!({"all": [var(""), all_chain]});
+            mixed = match k % 3 {
+                0 => json!({"map": [var(""), mixed]}),
+                1 => json!({"map": [{"filter": [var(""), true]}, {"if": [true, mixed, 0]}]}),
+                _ => json!({"map": [var(""), {"or": [false, mixed]}]}),
+            };
+            red_chain = json!({"reduce": [var(""), {"merge": [var("accumulator"), [{"var": "current"}]]}, {"if": [true, red_chain]}]});
+        }
+        ctx.check("c13.model", &map_chain, &data);
+        ctx.check("c13.model", &all_chain, &data);
+        ctx.check("c13.model", &mixed, &data);
+        ctx.check("c13.model", &red_chain, &data);
         ctx.mark_nontrivial_key(&format!("c13:depth:{}", d));
+        ctx.cell("deep-lazy-nesting");
     }
 }
 
